@@ -109,6 +109,8 @@ struct Global {
     uintptr_t p_lo = ~0UL, p_hi = 0;
     const char* poison_cls = "memory";
     uint32_t tsc_last = 0;
+    uint64_t spin_time = 0, stall_time = 0;
+    bool trace_time = false;
 };
 static Global G;
 static __thread Task* self = nullptr;
@@ -214,8 +216,8 @@ void finish(const char* status, const char* cls, const char* fmt, ...) {
              (unsigned long long)G.steps, (unsigned long long)G.switches, (unsigned long long)G.now,
              (unsigned long long)G.hash, G.ntasks);
     o += b;
-    snprintf(b, sizeof b, "\"cfg\":{\"strategy\":%d,\"p_atomic\":%u,\"p_plain\":%u,\"cpu_cost_ns\":%u,\"tsc_gran_us\":%u,\"stalls\":%u,\"pct_depth\":%u},",
-             cfg.strategy, cfg.p_atomic_q16, cfg.p_plain_q16, cfg.cpu_cost_ns, cfg.tsc_gran_us, cfg.n_stalls, cfg.pct_depth);
+    snprintf(b, sizeof b, "\"cfg\":{\"strategy\":%d,\"p_atomic\":%u,\"p_plain\":%u,\"cpu_cost_ns\":%u,\"tsc_gran_us\":%u,\"tsc_stale\":%u,\"stalls\":%u,\"pct_depth\":%u,\"spurious\":%u},",
+             cfg.strategy, cfg.p_atomic_q16, cfg.p_plain_q16, cfg.cpu_cost_ns, cfg.tsc_gran_us, cfg.tsc_stale_q16, cfg.n_stalls, cfg.pct_depth, cfg.spurious_q16);
     o += b;
     o += "\"probes\":{";
     bool first = true;
@@ -286,6 +288,7 @@ void poison_check(const void* p, size_t n, bool is_write) {
 // clock
 // ---------------------------------------------------------------------------
 uint64_t now_ns() { return G.now; }
+uint64_t perturbed_ns() { return G.spin_time + G.stall_time; }
 uint64_t steps() { return G.steps; }
 uint64_t switches() { return G.switches; }
 bool active() { return G.active; }
@@ -352,6 +355,7 @@ void configure_from_seed(uint64_t seed) {
     if (const char* e = getenv("SIM_CPU_COST")) cfg.cpu_cost_ns = atoi(e);
     if (const char* e = getenv("SIM_STALLS")) cfg.n_stalls = atoi(e);
     if (const char* e = getenv("SIM_VERBOSE")) cfg.verbose = atoi(e);
+    if (getenv("SIM_TRACE_TIME")) G.trace_time = true;
     if (const char* e = getenv("SIM_MAX_STEPS")) cfg.max_steps = strtoull(e, nullptr, 10);
 }
 
@@ -408,12 +412,13 @@ static Task* pick_next(Task* exclude, bool must_switch) {
                 if (G.progress == G.last_unspin_progress) { if (G.unspin_quantum < 10000000) G.unspin_quantum *= 2; }
                 else G.unspin_quantum = 1000;
                 G.last_unspin_progress = G.progress;
-                G.now += G.unspin_quantum;
+                G.now += G.unspin_quantum; G.spin_time += G.unspin_quantum;
                 unspin_all();
                 if (G.next_deadline <= G.now) fire_timers();
                 continue;
             }
             if (G.next_deadline != ~0ULL) {
+                if (G.trace_time) note("idle: clock jumps %llu -> %llu", (unsigned long long)G.now, (unsigned long long)G.next_deadline);
                 if (G.next_deadline > G.now) G.now = G.next_deadline;
                 fire_timers();
                 continue;
@@ -450,6 +455,7 @@ static void default_deadlock() {
 // Block the current task; returns true if woken by timeout.
 static bool block_on(const void* obj, uint64_t deadline) {
     Task* t = self;
+    if (G.trace_time) note("task %d blocks on %p until %llu", t->id, obj, (unsigned long long)deadline);
     t->st = T_BLOCKED; t->wobj = obj; t->deadline = deadline; t->timed_out = false;
     if (deadline && deadline < G.next_deadline) G.next_deadline = deadline;
     G.steps++;
@@ -480,6 +486,7 @@ static void do_stall(Task* t) {
     uint64_t ns = 1000 + G.srng.below(cfg.stall_max_ns);
     fault_fired("task_stall");
     note("stall task %d for %llu ns", t->id, (unsigned long long)ns);
+    G.stall_time += ns;
     block_on(&G.stall_points, G.now + ns);
 }
 
@@ -662,7 +669,9 @@ extern "C" {
 uint32_t photon_verif_rdtsc() {
     if (!G.active) return 0;
     uint32_t v = (uint32_t)(G.now / 1000 / (cfg.tsc_gran_us ? cfg.tsc_gran_us : 1));
-    if (cfg.tsc_stale_q16 && v != G.tsc_last && (G.frng.next() & 0xffff) < cfg.tsc_stale_q16) {
+    // buggify: report "unchanged" once more, but only while the true epoch is exactly one ahead —
+    // a real TSC sampled with granularity G can lag by less than one further epoch, never by more
+    if (cfg.tsc_stale_q16 && v == G.tsc_last + 1 && (G.frng.next() & 0xffff) < cfg.tsc_stale_q16) {
         fault_fired("tsc_stale");
         return G.tsc_last;
     }
